@@ -310,7 +310,7 @@ class NgramVectorizer(BaseEstimator, TransformerMixin):
             counter = {}
             for index_gram in sequence:
                 try:
-                    if self.ngram_size == 1:
+                    if len(index_gram) == 1:
                         token_gram = self._inverse_token_dictionary_[index_gram[0]]
                     else:
                         token_gram = tuple(
@@ -378,7 +378,7 @@ class NgramVectorizer(BaseEstimator, TransformerMixin):
                 numba_sequence, self.ngram_size, self.ngram_behaviour
             ):
                 try:
-                    if self.ngram_size == 1:
+                    if len(index_gram) == 1:
                         token_gram = self._inverse_token_dictionary_[index_gram[0]]
                     else:
                         token_gram = tuple(
